@@ -401,6 +401,8 @@ def tbl7_partition_codec(ctx):
             ctx.violation('TBL-7', 'EncodingType|capnp-%s|round-trip' % m,
                           'capnp %s decodes to EncodingType::%s which encodes to %s' % (m, v, to_c.get(v)),
                           'src/%s' % f)
+    # column scalars: name, len, codec list, section list travel to the same constructor position
+    _column_scalars(ctx, ser, de, f)
     # range union
     rs = [n for n in builder_calls(ser) if n[0] in ('set_empty', 'init_range', 'set_start', 'set_end')]
     names = [n[0] for n in rs]
@@ -413,6 +415,45 @@ def tbl7_partition_codec(ctx):
     ctx.check('TBL-7', 'range|positions', ok,
               'range tuple positions agree: (start, end) written from / read into the same positions',
               'src/%s' % f)
+
+
+def _column_scalars(ctx, ser, de, f):
+    """`Column::new(name, len, range, codec, data)` in the reader takes each argument from the getter
+    of the field the writer filled from the accessor of the same name."""
+    # writer: set_name(<..name()..>), set_len(<..len()..>), init_codec(<..ops()..>), init_data(<..data()..>)
+    want_w = {'set_name': 'name', 'set_len': 'len', 'init_codec': 'ops', 'init_data': 'data'}
+    got_w = {}
+    for n in walk(ser['body']):
+        if isinstance(n, dict) and n.get('k') == 'mcall' and n['method'] in want_w and n['method'] not in got_w:
+            ms = [x['method'] for a in n.get('args', []) for x in walk(a) if isinstance(x, dict) and x.get('k') == 'mcall']
+            got_w[n['method']] = ms
+    for setter, acc in sorted(want_w.items()):
+        ctx.check('TBL-7', 'Column|%s|written-from-%s' % (setter, acc), acc in got_w.get(setter, []),
+                  'writer: %s(..) takes the column\'s %s() (accessors in the argument: %s)'
+                  % (setter, acc, got_w.get(setter)), 'src/%s' % f)
+    # reader: aliases `let x = <expr with get_*>`
+    alias = {}
+    for n in walk(de['body']):
+        if isinstance(n, dict) and n.get('k') == 'let' and n.get('init') is not None and \
+                (n.get('pat') or {}).get('k') == 'p_ident':
+            gs = getter_calls(n['init'])
+            if gs:
+                alias.setdefault(n['pat']['name'], gs[0])
+    cons = [c for c in find(de, 'call') if (c.get('func') or {}).get('path', '').endswith('Column::new')]
+    ctx.check('TBL-7', 'Column|constructor-found', len(cons) == 1,
+              'the reader builds each column with one Column::new call (%d)' % len(cons), 'src/%s' % f)
+    if len(cons) != 1:
+        return
+    want_r = ['get_name', 'get_len', 'get_range', 'get_codec', 'get_data']
+    args = cons[0].get('args', [])
+    for i, g in enumerate(want_r):
+        src = None
+        if i < len(args):
+            gs = getter_calls(args[i])
+            src = gs[0] if gs else next((alias[x] for x in idents_in(args[i]) if x in alias), None)
+        ctx.check('TBL-7', 'Column|arg%d|read-from-%s' % (i, g), src == g,
+                  'reader: argument %d of Column::new comes from %s (expected %s)' % (i, src, g),
+                  'src/%s:%d' % (f, cons[0]['l']))
 
 
 def _range_positions(ser, de):
